@@ -6,7 +6,7 @@ From SFC.Base Require Import Res Str Sorting.
 From SFC.Gen Require Import Fx Zone.
 From SFC.GenMarket Require Import Market.
 From SFC.GenTax Require Import Tax TaxProofs.
-From SFC.GenMain Require Import Program Classes Main Ledger MainProofs Names Conflict Balance.
+From SFC.GenMain2 Require Import Program Classes Main Ledger MainProofs Names Conflict Balance.
 Import ListNotations.
 Local Open Scope string_scope.
 
